@@ -404,3 +404,12 @@ def case_strategy(kinds, max_side=8, any_norm=False):
 
 def scene_label(sc):
     return sc["kind"] + "+" + sc["th"]["t"]
+
+
+def lens_quad_order(kz, krho_max, beta, x):
+    """Quadrature order at which Lens(...) is converged (calibrated in DESIGN C08): the integrand
+    oscillates with phase |kz|(1-cos b) + k rho sin b in theta and k rho sin b in phi, and the Mie
+    amplitude with ~x lobes over [0, b]."""
+    phase = abs(kz) * (1 - math.cos(beta)) + krho_max * math.sin(beta)
+    return int(max(math.ceil(phase / 2) + 30, math.ceil(1.5 * krho_max * math.sin(beta)) + 40,
+                   math.ceil(4 * x * beta / math.pi) + 30))
